@@ -664,7 +664,7 @@ def expand_once(ctx, rule: str) -> RuleResult:
     twice: templates inside it would be expanded twice, and the hooks would run twice for one call."""
     from ..core.callgraph import CallGraph
 
-    rr = RuleResult(rule, "a parser function expands each piece of argument text at most once per path", min_instances=40)
+    rr = RuleResult(rule, "a parser function expands each piece of argument text at most once per path", min_instances=30)
     cg = CallGraph(ctx.index)
     for dotted in sorted(cg.registered_parser_functions):
         if not ctx.index.has_func(dotted):
